@@ -47,6 +47,14 @@ ASSUMPTIONS = [
 FLOORS = {"op_checked": 5000, "confinement_checked": 1500,
           "truncated_transfer": 200, "outside_position_transfer": 100,
           "closed_or_freed_op": 200, "slice_checked": 500}
+ANCHORS = [("rig.machine_control.machine_controller", "SlicedMemoryIO.read",
+            {"read_truncated": "n_bytes = new_n_bytes"}),
+           ("rig.machine_control.machine_controller", "SlicedMemoryIO.write",
+            {"write_truncated": "bytes = bytes[:n_bytes]"}),
+           ("rig.machine_control.machine_controller",
+            "SlicedMemoryIO.__getitem__",
+            {"negative_start": "self._end_address + sl.start)",
+             "negative_stop": "self._end_address + sl.stop)"})]
 SHARDS = {"quick": 16, "thorough": 64}
 CLASSES = ["mixed", "seeky", "slicy", "lifecycle", "tiny"]
 KF_KEY = "seek-from-end-sign"
